@@ -1,42 +1,42 @@
+//! Registry of per-property checks.
 pub mod c08;
 pub mod c09;
 pub mod c11;
 pub mod c12;
+pub mod c14;
 pub mod c15;
 pub mod c16;
 
 use crate::run::{Acc, Ctx};
-use crate::util::Json;
 
 /// (accumulated observations, coverage rule text, exhaustive?)
 pub type CheckOut = (Acc, String, bool);
 
-pub fn dispatch(ctx: &Ctx) -> Option<CheckOut> {
-    Some(match ctx.prop.as_str() {
-        "C09" => c09::run(ctx),
-        "C12" => c12::run(ctx),
-        "C15" => c15::run(ctx),
-        "C16" => c16::run(ctx),
-        "C08" => c08::run(ctx),
-        "C11" => c11::run(ctx),
-        _ => return None,
-    })
+macro_rules! registry {
+    ($( $id:literal => $m:ident ),* $(,)?) => {
+        pub fn dispatch(ctx: &Ctx) -> Option<CheckOut> {
+            match ctx.prop.as_str() {
+                $( $id => Some($m::run(ctx)), )*
+                _ => None,
+            }
+        }
+        pub fn assumptions(prop: &str) -> Vec<&'static str> {
+            match prop {
+                $( $id => $m::ASSUMPTIONS.to_vec(), )*
+                _ => vec![],
+            }
+        }
+    };
 }
 
-
-pub fn assumptions(prop: &str) -> Vec<&'static str> {
-    match prop {
-        "C12" => vec!["natural order: numeric (i32 exactly embedded in f64), code-point order for chars, lexicographic by element with the shorter prefix first", "slice/slice pairs are not judged against an order (the property does not settle them); only absence of failure is checked"],
-        "C11" => vec!["reference: structural equality on V with list/concatenation flattening exactly as both stores' concatenation iterators splice (lists directly under a concatenation are spliced, nested lists are items)", "NaN excluded (reflexivity is not demanded of NaN)", "symbol lists hold symbols only (SimpleGarnishData cannot store numeric parts)"],
-        "C08" => vec!["definedness table (DESIGN Appendix C) transcribed once from the runtime's explicit match arms; it is the specification of which cells have a defined result", "defined cells are judged only by the generic clauses (at most one defer, unit after decline, host result used, one result, UnsupportedOpTypes never escapes)"],
-        "C16" => vec!["symbol keys are distinct within a value (the property quantifies over sets of distinct symbols)", "apply on a concatenation is not treated as a lookup (not a defined combination); fractional indexes are outside the property"],
-        "C15" => vec!["model: independent growable tables (plain vectors) + stacks where pop_frame discards the operands pushed after the matching push_frame", "unstructured 64-bit hash collisions of the intern cache are out of reach; only structural aliasing of the hashed byte stream is generated"],
-        "C09" => vec![
-            "reference arithmetic: i128 for integers, IEEE f64 (Rust core) for floats incl. powf/fmod",
-            "shift that moves bits out of 32 bits may answer unit or the two's-complement pattern; float // may answer integer or integral float (DESIGN C09)",
-        ],
-        _ => vec![],
-    }
+registry! {
+    "C08" => c08,
+    "C09" => c09,
+    "C11" => c11,
+    "C12" => c12,
+    "C14" => c14,
+    "C15" => c15,
+    "C16" => c16,
 }
 
 use crate::mon::Mon;
